@@ -202,6 +202,47 @@ def plan(tier, seed):
     return specs
 
 
+_PN = []
+
+
+def per_node_envs():
+    """Environments whose match class exposes per-node data through filter_context() (the
+    documented match_class hook), with caching on and off."""
+    if _PN:
+        return _PN
+    import jsonpath
+
+    class NodeMatch(jsonpath.JSONPathMatch):
+        def filter_context(self):
+            d = dict(self._filter_context)
+            d["key"] = self.parts[-1] if self.parts else None
+            d["depth"] = len(self.parts)
+            return d
+
+    class On(jsonpath.JSONPathEnvironment):
+        match_class = NodeMatch
+
+    _PN.extend([On(filter_caching=True), On(filter_caching=False)])
+    return _PN
+
+
+def per_node_context_case(ctx, r):
+    """Caching on vs off under a match class whose filter context varies per node."""
+    on, off = per_node_envs()
+    names = ["a", "b", "k", "v"]
+    doc = {n: {m: {"team": r.choice(names), "level": r.randint(1, 3), "v": r.choice([1, 2])} for m in r.sample(names, 3)} for n in r.sample(names, 3)}
+    doc["kids"] = [{"level": r.randint(1, 4), "id": i, "kids": [{"level": r.randint(2, 5), "id": 10 + i}]} for i in range(3)]
+    texts = ["$.*[?@.team == _.key]", "$.*.*[?@ == _.depth]", "$..kids[?@.level == _.depth].id", "$..[?@.team == _.key].v", "$.*[?_.key in ['a', 'k']]", "$..*[?@.level >= _.depth]"]
+    for text in texts:
+        ctx.evaluation()
+        a = outcome(lambda: records(on.compile(text).finditer(doc)))
+        b = outcome(lambda: records(off.compile(text).finditer(doc)))
+        ctx.count("per_node_context_cases")
+        if a != b:
+            ctx.violation("caching-changes-the-result-under-a-per-node-filter-context", {"kind": "per-node-context", "text": text, "doc": doc}, {"text": text, "caching_on": repr(a)[:300], "caching_off": repr(b)[:300]})
+            return
+
+
 def solo(text, doc, ex):
     """Reference: fresh environment with caching off, freshly compiled, fresh deep copy."""
     import jsonpath
@@ -275,6 +316,19 @@ def run_history(ctx, text, hist, reps, case):
         if got != want:
             ctx.violation("result-depends-on-earlier-context-for-the-same-document", case, {"text": text, "step": j, "got": repr(got)[:300], "solo_cache_off": repr(want)[:300]})
             return
+    # the caller rebinds entries of ITS filter-context mapping in place between two evaluations
+    live = {"k": 2, "list": ["a", 2], "o": {"a": 1}, "s": "ab", "names": ["a"], "limit": 1}
+    for step in range(3):
+        got = outcome(lambda: records(p.finditer(d0, filter_context=live)))
+        want = solo(text, d0, live)
+        ctx.count("evaluations_after_in_place_context_update")
+        if got != want:
+            ctx.violation("result-ignores-in-place-update-of-the-filter-context", case, {"text": text, "step": step, "context": canon(live), "got": repr(got)[:300], "solo_cache_off": repr(want)[:300]})
+            return
+        live["k"] = r.choice([3, "a", None, 2])
+        live["list"] = [r.choice(gen.MEM_LEAVES) for _ in range(3)]
+        live["o"] = {n: 1 for n in r.sample(["a", "b", "c", "k", "v"], 2)}
+        live["names"] = r.sample(["a", "b", "c"], 2)
     if mutate_in_place(r, d0):
         ex = hist[0][1]
         kw = {"filter_context": impl.fresh(ex)} if ex is not None else {}
@@ -490,6 +544,12 @@ def run(spec, ctx):
     r = ctx.rng
     kind = spec["kind"]
     if kind == "history":
+        for _ in range(20):
+            per_node_context_case(ctx, r)
+        # (H4's one-context-per-cell rule assumes the stock match class, whose filter context is one
+        # object per evaluation; the per-node class hands out a new mapping per node by design)
+        MON.violations.clear()
+        MON.reset()
         for _ in range(spec["n"]):
             text, hist = gen_case(r)
             run_history(ctx, text, hist, spec["reps"], {"text": text, "hist": hist, "kind": "history", "reps": spec["reps"]})
@@ -528,6 +588,14 @@ def finalize(m, tier):
 def replay(case, ctx):
     install()
     kind = case.get("kind", "history")
+    if kind == "per-node-context":
+        on, off = per_node_envs()
+        a = outcome(lambda: records(on.compile(case["text"]).finditer(case["doc"])))
+        b = outcome(lambda: records(off.compile(case["text"]).finditer(case["doc"])))
+        ctx.evaluation()
+        if a != b:
+            ctx.violation("caching-changes-the-result-under-a-per-node-filter-context", case, {"caching_on": repr(a)[:300], "caching_off": repr(b)[:300]})
+        return
     if kind == "iterators":
         run_iterators(ctx, case["text"], case["hist"], case)
     elif kind == "tasks":
